@@ -8,6 +8,19 @@ W = 'pydoctor/templatewriter/writer.py'
 L = 'pydoctor/linker.py'
 
 
+
+def _vis(o):
+    """visible by the property's own definition - no rule hides the object or any of its containers - computed here by walking
+    the ancestors (independent of Documentable.isVisible, which is code under test)"""
+    from pydoctor import model
+    a = o
+    while a is not None:
+        if a.privacyClass is model.PrivacyClass.HIDDEN:
+            return False
+        a = a.parent
+    return True
+
+
 def _cases(tier, seed):
     for k in range(len(site.PRIVACY_SETS)):
         yield {'privacy': k, 'project': 'B'}
@@ -82,7 +95,7 @@ def check_site(case, which):
                 summary_pages.add('index.html')
             owners = {}
             for name, o in objs.items():
-                if o.isVisible and name in reach and o.documentation_location is model.DocLocation.OWN_PAGE:
+                if _vis(o) and name in reach and o.documentation_location is model.DocLocation.OWN_PAGE:
                     if o.url in owners:
                         fails.append({'observed': f'{name} and {owners[o.url]} share the file {o.url}', 'required': 'two different pages never share a file name',
                                       'class': 'shared-page:' + o.url})
@@ -91,7 +104,7 @@ def check_site(case, which):
                         fails.append({'observed': f'the page of {name} is {o.url}, which is also a summary page', 'required': 'two different pages never share a file name',
                                       'class': 'summary-clash:' + o.url, 'summary_clash': o.url})
             for name, o in objs.items():
-                if not o.isVisible or name not in reach:
+                if not _vis(o) or name not in reach:
                     continue
                 url = o.url
                 page, _, frag = url.partition('#')
@@ -101,7 +114,7 @@ def check_site(case, which):
                 elif frag and urllib.parse.unquote(frag) not in idx['pages'][page]['anchors']:
                     fails.append({'observed': f'visible {name}: no anchor {frag!r} on {page}', 'required': 'an anchor on the parent page', 'class': 'no-anchor'})
         if which in ('C12', 'both'):
-            hidden = {n for n, o in objs.items() if not o.isVisible}
+            hidden = {n for n, o in objs.items() if not _vis(o)}
             hidden_urls = {}
             for n in hidden:
                 o = objs[n]
@@ -110,13 +123,13 @@ def check_site(case, which):
                 o = objs[n]
                 u = urllib.parse.unquote(o.url)
                 page, _, frag = u.partition('#')
-                if not frag and page in idx['files'] and not any(objs[m].isVisible and urllib.parse.unquote(objs[m].url) == page for m in objs):
+                if not frag and page in idx['files'] and not any(_vis(objs[m]) and urllib.parse.unquote(objs[m].url) == page for m in objs):
                     fails.append({'observed': f'hidden {n} has a page {page}', 'required': 'no page', 'class': 'hidden-page:' + n, 'hidden': n})
                 if n in idx['inventory']:
                     fails.append({'observed': f'hidden {n} has an inventory entry', 'required': 'none', 'class': 'hidden-inv', 'hidden': n})
                 if n in idx['search_names']:
                     fails.append({'observed': f'hidden {n} has a search document', 'required': 'none', 'class': 'hidden-search', 'hidden': n})
-            visible_names = {o.name for o in objs.values() if o.isVisible} | {n for n, o in objs.items() if o.isVisible}
+            visible_names = {o.name for o in objs.values() if _vis(o)} | {n for n, o in objs.items() if _vis(o)}
             # (classIndex.html shows a hidden *base* of a visible class as a plain name node, exactly like a base from an
             #  external library: source text about the visible subclass, see DESIGN.md C12 - not an entry for the hidden class)
             for page in ('moduleIndex.html', 'index.html', 'nameIndex.html'):
@@ -140,7 +153,7 @@ def check_site(case, which):
                         continue
                     target, frag = r
                     full = target + ('#' + frag if frag else '')
-                    if full in hidden_urls and not any(objs[m].isVisible and urllib.parse.unquote(objs[m].url) == full for m in objs):
+                    if full in hidden_urls and not any(_vis(objs[m]) and urllib.parse.unquote(objs[m].url) == full for m in objs):
                         fails.append({'observed': f'{page}: hyperlink {href!r} targets hidden {hidden_urls[full]}', 'required': 'no hyperlink targets a hidden object',
                                       'class': 'hidden-link:' + hidden_urls[full] + '@' + page, 'hidden': hidden_urls[full]})
                 # private marker on listing entries
@@ -152,7 +165,7 @@ def check_site(case, which):
                         continue
                     full = r[0] + ('#' + r[1] if r[1] else '')
                     for n, o in objs.items():
-                        if o.isVisible and n in reach and urllib.parse.unquote(o.url) == full:
+                        if _vis(o) and n in reach and urllib.parse.unquote(o.url) == full:
                             cls = e['class'].split()
                             kinds = {'tr': 'table row', 'li': 'list item', 'div': 'block'}
                             if o.privacyClass is model_privacy_private() and 'private' not in cls and _is_listing(e, page):
